@@ -23,6 +23,21 @@ HelpBufErrs(ev, full, spare) ==
          ELSE (IF body[ev.ret + 1] # 0 THEN {"terminator"} ELSE {})
               \cup (IF SubSeq(body, 1, ev.ret) # SubSeq(full, 1, IF ev.ret < Len(full) THEN ev.ret ELSE Len(full)) THEN {"text"} ELSE {})
               \cup (IF ev.amax >= Len(full) + 1 + spare /\ ev.ret # Len(full) THEN {"truncated_although_it_fits"} ELSE {}))
+\* creader_readline over a whole text.  TextUtil.tla gives a reference definition (ReadLine / ReadAll); the statement of the property does
+\* not define the function, so the trace specification demands only what every reading of "the next line" has in common: the calls come to
+\* an end with -1 and the cursor at the end of the text; the lines lie inside the text, in order and without overlap; no line contains a
+\* line feed; every character that is not a carriage return or a line feed belongs to exactly one line.
+CReaderErrs(ev) ==
+   LET s == ev.s  ls == ev.lines  n == Len(ls)
+       inside == \A k \in 1..n : ls[k][1] >= 0 /\ ls[k][2] >= 0 /\ ls[k][1] + ls[k][2] <= Len(s)
+       ordered == \A k \in 1..(n - 1) : ls[k][1] + ls[k][2] <= ls[k + 1][1]
+       Covered(j) == \E k \in 1..n : ls[k][1] < j /\ j <= ls[k][1] + ls[k][2]         \* j: 1-based position in s
+   IN (IF ev.ended # 1 \/ ev.calls > Len(s) + 1 THEN {"does_not_come_to_an_end"} ELSE {})
+      \cup (IF ev.ended = 1 /\ (ev.cur # Len(s) \/ ev.atend # 1) THEN {"cursor_not_at_end"} ELSE {})
+      \cup (IF ~inside THEN {"line_outside_text"}
+            ELSE (IF ~ordered THEN {"lines_overlap_or_out_of_order"} ELSE {})
+                 \cup (IF \E k \in 1..n : \E j \in (ls[k][1] + 1)..(ls[k][1] + ls[k][2]) : s[j] = 10 THEN {"line_feed_inside_line"} ELSE {})
+                 \cup (IF \E j \in 1..Len(s) : s[j] \notin {10, 13} /\ ~Covered(j) THEN {"character_in_no_line"} ELSE {}))
 Exp(ev) ==
    LET s == ev.s a == ev.a b == ev.b n == ev.n IN
    CASE ev.fn = "split_char" -> [toks |-> Split(s, {a[1]})]
@@ -52,7 +67,6 @@ Exp(ev) ==
      [] ev.fn \in {"mshell_script", "mshell_tables_script", "rshell_script", "rshell_tables_script"} ->
             LET ls == Split(s, {10}) IN [lines |-> ls, names |-> [k \in 1..Len(ls) |-> Dispatch(ls[k], Names, 10).name]]
      \* creader: every line of the text (token offset, length), the number of calls until -1, the final cursor; skip from cursor n
-     [] ev.fn = "creader_lines" -> LET ls == ReadAll(s, 0, <<>>) IN [lines |-> ls, calls |-> Len(ls) + 1, cur |-> Len(s), atend |-> 1]
      [] ev.fn = "creader_skip" -> LET r == CSkip(s, n, ToSet(a)) IN [ret |-> r.ret, cur |-> r.cur]
      [] ev.fn = "mshell_help" -> [out |-> HelpText(TabOf(n), 1)]
      [] ev.fn = "mshell_tables_help" -> [out |-> HelpText(Tab1, 1) \o HelpText(Tab2, 1)]
@@ -66,6 +80,8 @@ TNext ==
    /\ LET ev == TraceLog[l] IN
       IF ev.e = "Reset" THEN TRUE
       ELSE IF ev.e = "Fault" THEN Flag(l, <<"fault">>, [kind |-> ev.kind, where |-> ev.where])
+      ELSE IF ev.fn = "creader_lines" THEN
+           LET errs == CReaderErrs(ev) IN IF errs # {} THEN Flag(l, SetToSeq(errs), [reference_lines |-> ReadAll(ev.s, 0, <<>>)]) ELSE TRUE
       ELSE IF ev.fn \in {"rshell_help", "rshell_tables_help"} THEN
            LET full == IF ev.fn = "rshell_help" THEN HelpText(TabOf(ev.n), 1) ELSE HelpText(Tab1, 1) \o HelpText(Tab2, 1)
                errs == HelpBufErrs(ev, full, IF ev.fn = "rshell_help" THEN 0 ELSE 2)
